@@ -201,7 +201,7 @@ impl PoolEntry {
 		MethodDescriptor::try_from(pool.get_utf8(descriptor_index).context("while getting method type")?)
 	}
 
-	fn as_dynamic(&self, pool: &PoolRead, bootstrap_methods: &Option<Vec<BootstrapMethodRead>>, depth: u8) -> Result<ConstantDynamic> {
+	fn as_dynamic(&self, pool: &PoolRead, bootstrap_methods: &Option<Vec<BootstrapMethodRead>>, depth: u8, budget: &mut u32) -> Result<ConstantDynamic> {
 		let PoolEntry::Dynamic { bootstrap_method_attribute_index, name_and_type_index } = *self else {
 			bail!("pool entry not `Dynamic`: {self:?}");
 		};
@@ -224,7 +224,11 @@ impl PoolEntry {
 		let arguments = {
 			let mut vec = Vec::with_capacity(method.arguments.len());
 			for &argument in &method.arguments {
-				let value = pool.get_loadable_nested(argument, bootstrap_methods, depth + 1)
+				// The arguments are stored by value: an entry that is shared in the pool is copied once per use. Without a limit on
+				// the total, a few levels that each list the next one several times expand into an exponentially large tree.
+				*budget = budget.checked_sub(1)
+					.with_context(|| anyhow!("`Dynamic` pool entry expands to more than {MAX_DYNAMIC_CONSTANT_ARGUMENTS} static arguments"))?;
+				let value = pool.get_loadable_nested(argument, bootstrap_methods, depth + 1, budget)
 					.with_context(|| anyhow!("while argument for `Dynamic` at index {bootstrap_method_attribute_index:?}: {name:?} {descriptor:?} {handle:?}"))?;
 				vec.push(value); // TODO: recursion
 			}
@@ -250,8 +254,9 @@ impl PoolEntry {
 		let handle = method.handle.clone();
 		let arguments = {
 			let mut vec = Vec::with_capacity(method.arguments.len());
+			let mut budget = MAX_DYNAMIC_CONSTANT_ARGUMENTS;
 			for &argument in &method.arguments {
-				let value = pool.get_loadable(argument, bootstrap_methods)
+				let value = pool.get_loadable_nested(argument, bootstrap_methods, 0, &mut budget)
 					.with_context(|| anyhow!("while argument for `InvokeDynamic` at index {bootstrap_method_attribute_index:?}: {name:?} {descriptor:?} {handle:?}"))?;
 				vec.push(value); // TODO: recursion
 			}
@@ -261,7 +266,7 @@ impl PoolEntry {
 		Ok(InvokeDynamic { name, descriptor, handle, arguments })
 	}
 
-	fn as_loadable(&self, pool: &PoolRead, bootstrap_methods: &Option<Vec<BootstrapMethodRead>>, depth: u8) -> Result<Loadable> {
+	fn as_loadable(&self, pool: &PoolRead, bootstrap_methods: &Option<Vec<BootstrapMethodRead>>, depth: u8, budget: &mut u32) -> Result<Loadable> {
 		match self {
 			PoolEntry::Integer { .. } => Ok(Loadable::Integer(self.as_integer()?)),
 			PoolEntry::Float { .. } => Ok(Loadable::Float(self.as_float()?)),
@@ -271,7 +276,7 @@ impl PoolEntry {
 			PoolEntry::String { .. } => Ok(Loadable::String(self.as_string(pool)?)),
 			PoolEntry::MethodHandle { .. } => Ok(Loadable::MethodHandle(self.as_method_handle(pool)?)),
 			PoolEntry::MethodType { .. } => Ok(Loadable::MethodType(self.as_method_type(pool)?)),
-			PoolEntry::Dynamic { .. } => Ok(Loadable::Dynamic(self.as_dynamic(pool, bootstrap_methods, depth)?)),
+			PoolEntry::Dynamic { .. } => Ok(Loadable::Dynamic(self.as_dynamic(pool, bootstrap_methods, depth, budget)?)),
 			_ => bail!("pool entry is not loadable: {self:?}"),
 		}
 	}
@@ -290,6 +295,10 @@ impl PoolEntry {
 
 /// The deepest nesting of dynamic constants as static arguments of dynamic constants that is read.
 const MAX_DYNAMIC_CONSTANT_NESTING: u8 = 16;
+
+/// The number of static arguments, counted over all nesting levels, that are read for one loadable constant
+/// (or for the arguments of one `invokedynamic` call site): as many as a constant pool has entries.
+const MAX_DYNAMIC_CONSTANT_ARGUMENTS: u32 = u16::MAX as u32;
 
 pub(crate) struct PoolRead {
 	/// We store a [`None`] for the zero index, as well as for the upper indices of [`PoolEntry::Double`] and [`PoolEntry::Long`].
@@ -516,12 +525,14 @@ impl PoolRead {
 	///
 	/// These are collected in the [`Loadable`] type.
 	pub(crate) fn get_loadable(&self, index: u16, bootstrap_methods: &Option<Vec<BootstrapMethodRead>>) -> Result<Loadable> {
-		self.get_loadable_nested(index, bootstrap_methods, 0)
+		let mut budget = MAX_DYNAMIC_CONSTANT_ARGUMENTS;
+		self.get_loadable_nested(index, bootstrap_methods, 0, &mut budget)
 	}
 
-	/// Like [`PoolRead::get_loadable`], for a loadable that is the `depth`-th nested argument of a dynamic constant.
-	fn get_loadable_nested(&self, index: u16, bootstrap_methods: &Option<Vec<BootstrapMethodRead>>, depth: u8) -> Result<Loadable> {
-		self.get(index)?.as_loadable(self, bootstrap_methods, depth).pool_context(index)
+	/// Like [`PoolRead::get_loadable`], for a loadable that is the `depth`-th nested argument of a dynamic constant;
+	/// `budget` is the number of static arguments that may still be read for the outermost constant.
+	fn get_loadable_nested(&self, index: u16, bootstrap_methods: &Option<Vec<BootstrapMethodRead>>, depth: u8, budget: &mut u32) -> Result<Loadable> {
+		self.get(index)?.as_loadable(self, bootstrap_methods, depth, budget).pool_context(index)
 	}
 
 	pub(crate) fn get_constant_value(&self, index: u16) -> Result<ConstantValue> {
